@@ -73,7 +73,7 @@ func Verif_C17_close_vs_deliveries() {
 	verifapi.Assert("bound", err == nil)
 	verifapi.Quiesce()
 	withReader := verifapi.Bool()
-	verifapi.ExploreSchedules(2)
+	verifapi.ExploreSchedules(2 + verifapi.Tier())
 	done := make(chan bool, 4)
 	for i := 0; i < 2; i++ {
 		go func() {
